@@ -48,6 +48,14 @@ impl FileSystemState {
             }
         }
 
+        if !state.root_files.is_empty() {
+            // Root files are written directly into the artifact directory. It was deleted
+            // above and is otherwise only recreated implicitly, when nested files exist.
+            operations.push(FileSystemOperation::CreateDirectory(
+                artifact_directory.to_path_buf(),
+            ));
+        }
+
         for (new_file_name, (new_index, _)) in &state.root_files {
             let new_file_path = artifact_directory.join(new_file_name);
             operations.push(FileSystemOperation::WriteFile(
